@@ -54,8 +54,16 @@ def regStep (r : Registry) (toks : List String) : Registry × String :=
       pure ({ r with table := (l, Listener.community { pfx := p, pub := a, priv := b, tunnel := tun == "1" }) :: r.table } : Registry)) with
     | some r' => (r', "ok")
     | none => (r, "bad-op")
-  | ["cr", lid, pfx, tl, relays, circuits, exits, mre] =>
+  | ["st", lid, prefixes] =>
     match (do
+      let l ← lid.toNat?
+      let ps ← (if prefixes == "-" then some [] else (Proto.splitChar prefixes ',').mapM Proto.ofHex?)
+      pure ({ r with table := (l, Listener.stats ps) :: r.table } : Registry)) with
+    | some r' => (r', "ok")
+    | none => (r, "bad-op")
+  | ["cr", lid, pfx, tl, relays, circuits, exits, mre, hopless] =>
+    match (do
+      let hl ← Proto.natList? hopless
       let l ← lid.toNat?
       let p ← Proto.ofHex? pfx
       let rl ← Proto.natList? relays
@@ -68,7 +76,7 @@ def regStep (r : Registry) (toks : List String) : Registry × String :=
         | some (.community o) => some (some (k, o))
         | _ => none)
       pure ({ r with table := (l, Listener.crypto { pfx := p, tunnel := t, relays := rl, circuits := ci, exits := ex,
-                                                     maxRelayEarly := m }) :: r.table } : Registry)) with
+                                                     maxRelayEarly := m, hopless := hl }) :: r.table } : Registry)) with
     | some r' => (r', "ok")
     | none => (r, "bad-op")
   | ["inert", lid] =>
@@ -108,6 +116,7 @@ def netStep (n : NetS) (toks : List String) : Option NetS :=
     let o ← oid.toNat?
     let b ← Proto.ofHex? a
     pure (n.setAddr o b)
+  | ["cap", c] => c.toNat?.map fun k => { n with cap := k }
   | _ => none
 
 def step (st : St) (toks : List String) : St × String :=
@@ -130,7 +139,9 @@ def step (st : St) (toks : List String) : St × String :=
         | .error e => showErr e)).getD "bad-op")
   | ["snap", hex] =>
     (st, match Proto.ofHex? hex with
-      | some d => renderAll (loadSnapshot d)
+      | some d => (match loadSnapshot d with
+                   | .ok l => renderAll l
+                   | .error e => "exn=" ++ e.name)
       | none => "bad-op")
   | ["reset"] => ({}, "ok")
   | "net" :: rest =>
@@ -141,6 +152,12 @@ def step (st : St) (toks : List String) : St × String :=
     match lid.toNat?, (if ops == "-" then some [] else (Proto.splitChar ops ',').mapM parseOp) with
     | some l, some os => ({ st with fx := (l, os) :: st.fx.filter (·.1 != l) }, "ok")
     | _, _ => (st, "bad-op")
+  | ["dgram", running, v6, arity, src, hex, dec] =>
+    match arity.toNat?, Proto.ofHex? src, Proto.ofHex? hex, parseDec dec with
+    | some ar, some a, some d, some f =>
+      let o := datagramReceived (worstEnv st.fx) f 100000 (running == "1") (v6 == "1") ar st.reg st.net a d
+      (st, outStr o)
+    | _, _, _, _ => (st, "bad-op")
   | ["notify", src, hex, dec] =>
     match Proto.ofHex? src, Proto.ofHex? hex, parseDec dec with
     | some a, some d, some f =>
